@@ -112,6 +112,7 @@ struct Mon {
 		}
 		if (!t.valid || t.dest != r->dest) { viol(prop, clause, std::string(what) + " seen in " + ev_str(e) + " is " + tr_str(t) + ", expected " + req_str(*r)); return; }
 		if (t.origin != r->origin) viol("C06", "request-origin", std::string(what) + " seen in " + ev_str(e) + " has origin " + sid(t.origin) + ", the request was made by " + sid(r->origin));
+		if (t.origin != r->origin && r->from_task) viol("C08", "request-carries-task-origin", std::string(what) + " seen in " + ev_str(e) + " for the request issued by plan task " + req_str(*r) + " names " + sid(t.origin) + " as requester instead of the task's origin");
 		if (r->from_task && ((t.has_payload != 0) != r->has_payload || (r->has_payload && memcmp(t.payload, r->payload, g_info->payload_vsize) != 0)))
 			viol("C08", "request-carries-task-payload", std::string(what) + " seen in " + ev_str(e) + " for the request issued by plan task " + req_str(*r) + " does not carry exactly the task's payload");
 		if ((t.has_payload != 0) != r->has_payload) viol("C07", "payload-presence", std::string(what) + " seen in " + ev_str(e) + (t.has_payload ? " exposes a payload although the request had none" : " exposes no payload although the request carried one"));
@@ -154,6 +155,10 @@ struct Mon {
 			if (out.size() > nv) viol("C06", "pending-view", "pendingTransition() inside " + ev_str(e) + " is " + tr_str(e.pending) + ", the request under evaluation in this round is " + (cx.pending ? req_str(*cx.pending) : std::string("(none)")));
 		}
 		if (e.has_current) cmp_trans(e.current, cx.current, "currentTransition()", "C06", "current-view", e);
+		if (e.has_current && !(cx.current && cx.current->has) && !e.current.valid && (e.current.has_payload || e.current.origin != SUT_INVALID)) {
+			viol("C06", "current-view", "nothing has been accepted yet in this step, but currentTransition() inside " + ev_str(e) + " still shows " + (e.current.has_payload ? "a payload" : "an origin (" + sid(e.current.origin) + ")") + " left over from an earlier step");
+			if (e.current.has_payload) viol("C07", "payload-presence", "currentTransition() inside " + ev_str(e) + " exposes the payload of an earlier request although no transition has been accepted in this step");
+		}
 		// --- the transition history as seen through a control: stable (= what the last step left) in phase callbacks and query
 		if (e.has_previous && (cx.phase || e.method == M_QUERY) && T.prev_known) {
 			const Req& r = T.prev; const SutTrans& t = e.previous;
@@ -180,6 +185,8 @@ struct Mon {
 		}
 		if (e.machine_is_active >= 0 && (e.machine_is_active != 0) != (m >= 0))
 			viol("C01", "inactive-reports-none", "inside " + ev_str(e) + " the machine's isActive() is " + (e.machine_is_active ? "true" : "false") + " while activeStateId() names " + (m < 0 ? std::string("no state") : "state " + S(m)));
+		if (!cx.skip_active && m != cx.expect_active && e.method == M_ENTER && e.cls != SUT_INVALID)
+			viol("C14", "transition-activates-requested-state", "inside " + ev_str(e) + " the machine reports active state " + (m < 0 ? std::string("none") : S(m)) + ", not the state whose enter() is running");
 		if (!cx.skip_active && m != cx.expect_active)
 			viol("C01", "active-names-open", "inside " + ev_str(e) + " the machine reports active state " + (m < 0 ? std::string("none") : S(m)) + " but the state whose enter() ran last without exit() is " + (cx.expect_active < 0 ? std::string("none") : S(cx.expect_active)));
 		// --- C10: plan as seen through this control
@@ -311,6 +318,8 @@ struct Mon {
 						const bool lc_got = e && (e->method == M_ENTER || e->method == M_EXIT || e->method == M_REENTER);
 						if (lc_got && T.slot.has && e->cls == T.slot.dest && (e->method == M_ENTER || e->method == M_REENTER))
 							viol("C04", "leftover-not-applied-blindly", "the request left over at the substitution limit " + req_str(T.slot) + " was applied (" + ev_str(*e) + ") without passing guards");
+						if (lc_got && e->cls != SUT_INVALID && static_cast<int>(e->cls) != T.open && static_cast<int>(e->cls) != cls)
+							viol("C14", "callbacks-reach-the-addressed-state", ev_str(*e) + " ran although state " + sid(e->cls) + " is neither the active state nor the state being addressed (" + METHOD_NAMES[method] + "(" + sid(cls) + ") was due)");
 						if (lc_exp || lc_got) viol("C01", "lifecycle-pairing", std::string(METHOD_NAMES[method]) + "(" + sid(cls) + ") was due (state " + (T.open < 0 ? std::string("none") : S(T.open)) + " is the one whose enter() ran last without exit()), but " + got + " ran");
 					}
 					structural(cx.prop, cx.clause, std::string("expected ") + METHOD_NAMES[method] + "(" + sid(cls) + "), got " + got); return false;
@@ -318,6 +327,9 @@ struct Mon {
 				viol("C15", "each-once", std::string(METHOD_NAMES[method]) + "(" + sid(cls) + ") reached only " + S(j) + " of the " + S(k + 1) + " classes (injections + state)");
 				if (method == M_ENTER || method == M_EXIT || method == M_REENTER) viol("C01", "lifecycle-pairing", std::string(METHOD_NAMES[method]) + " of state " + sid(cls) + " reached only " + S(j) + " of its " + S(k + 1) + " classes: an injected base is left with an unpaired enter()/exit()");
 				if (method == M_ENTRY_GUARD || method == M_EXIT_GUARD) viol("C03", "guards-consulted", std::string(METHOD_NAMES[method]) + " of state " + sid(cls) + " was consulted only in part: " + S(j) + " of its " + S(k + 1) + " guard callbacks (injections + state) ran");
+				if (is_phase_method(method)) viol("C05", "each-phase-callback-once", std::string(METHOD_NAMES[method]) + " of state " + sid(cls) + " ran for only " + S(j) + " of the " + S(k + 1) + " classes the state is built from (each phase callback runs exactly once)");
+				if ((method == M_ENTER || method == M_EXIT || method == M_REENTER) && (x.kind == OP_LOAD || x.kind == OP_REPLAY_TRANSITION || x.kind == OPX_REPLAY_MSG))
+					viol(cx.prop, cx.clause, std::string(METHOD_NAMES[method]) + " of state " + sid(cls) + " reached only " + S(j) + " of its " + S(k + 1) + " classes");
 				return true;
 			}
 			int want = ord == ORD_PRE ? (j < k ? j + 1 : 0) : ord == ORD_POST ? (j == 0 ? 0 : k - j + 1) : -1;
@@ -459,6 +471,8 @@ struct Mon {
 		}
 		if ((root_outcomes || (g_case_vlog && T.logger)) && !T.mirror.empty() && own_fail)
 			viol("C09", "planFailed-on-own-failure", "the active state reported failure with a non-empty plan but planFailed() was not delivered in that cycle");
+		if (!root_outcomes && g_case_vlog && T.logger && !T.mirror.empty() && own_fail)
+			viol("C16", "verbose-records-every-delivery", "the active state reported failure with a non-empty plan, yet no verbose method record of planFailed() being delivered to the root appeared in that cycle");
 		// the active state reporting the failure of another state's task: judged only in cycles without any success report
 		if ((root_outcomes || (g_case_vlog && T.logger)) && !T.mirror.empty() && other_fail && !own_fail && !cycle_succ_call)
 			viol("C09", "planFailed-on-reported-failure", "a callback of the active state reported a task failure (of another state) with a non-empty plan but planFailed() was not delivered in that cycle");
